@@ -46,6 +46,18 @@ class KnownFindings:
         return None
 
 
+_PAR = None
+
+
+def _par_worker(span):
+    parent, fn, records = _PAR
+    sub = Ctx(parent.prop, parent.tier, parent.seed)
+    fn(sub, records[span[0]:span[1]])
+    return {"violations": sub.violations[:200] + [(k, None) for k, _ in sub.violations[200:]], "traces": sub.traces,
+            "evaluations": sub.evaluations, "nontrivial": sub.nontrivial, "samples": sub.samples, "notes": sub.notes,
+            "kf_hit": sub.kf.hit}
+
+
 class Ctx:
     def __init__(self, prop, tier, seed):
         self.prop = prop
@@ -91,6 +103,36 @@ class Ctx:
         else:
             self.violations.append((key, None))
         return True
+
+    # -- parallel replay (thorough tiers): the implementation side is single-threaded Python; fork workers over
+    #    slices of the exported cases and merge their bookkeeping.  fn(ctx, records) must only use the Ctx API.
+    def parallel(self, records, fn, nproc=14, chunk=20000):
+        import multiprocessing as mp
+        if len(records) <= chunk:
+            return fn(self, records)
+        global _PAR
+        _PAR = (self, fn, records)
+        spans = [(i, min(i + chunk, len(records))) for i in range(0, len(records), chunk)]
+        with mp.get_context("fork").Pool(nproc) as pool:
+            for part in pool.imap_unordered(_par_worker, spans):
+                self.merge(part)
+        _PAR = None
+
+    def merge(self, part):
+        for key, detail in part["violations"]:
+            if len(self.violations) < 200:
+                self.violations.append((key, detail))
+            else:
+                self.violations.append((key, None))
+        self.traces += part["traces"]
+        self.evaluations += part["evaluations"]
+        self.nontrivial |= part["nontrivial"]
+        for x in part["samples"]:
+            self.sample(x)
+        for k, v in part["notes"].items():
+            self.notes[k] = self.notes.get(k, 0) + v if isinstance(v, (int, float)) else v
+        for kid, (e, cnt) in part["kf_hit"].items():
+            self.kf.hit.setdefault(kid, [e, 0])[1] += cnt
 
     # -- finishing
     def finish(self):
